@@ -67,10 +67,26 @@ def eta_weights(lt):
 
 def run_tables(desc):
     cfg = desc["cfg"]
+    out = check_model(cfg, None)
+    if desc.get("reprm"):
+        # the same model object gets new parameters (some of them possibly unchanged): the tables must follow
+        U = sg.universe_of(cfg)
+        mdl = sg.build_lifetime(U, cfg["lt"])
+        _ = mdl.sf, mdl.pdf
+        new = dict(cfg["lt"]["prms"])
+        new.update(desc["reprm"])
+        mdl.set_prms(**{k: sg.build_prm(U, p) for k, p in new.items()})
+        check_model(dict(cfg, lt=dict(cfg["lt"], prms=new)), mdl, pre="after-set_prms-")
+        out["classes"].append("re-parameterised:" + ("all" if len(desc["reprm"]) == len(new) else "first-only" if list(desc["reprm"]) == list(new)[:1] else "some"))
+    return out
+
+
+def check_model(cfg, mdl, pre=""):
     lt = cfg["lt"]
     U = sg.universe_of(cfg)
     letters = gen.uletters(U)
-    mdl = sg.build_lifetime(U, lt)
+    if mdl is None:
+        mdl = sg.build_lifetime(U, lt)
     sf = np.array(mdl.sf, float)
     pdf = np.array(mdl.pdf, float)
     grid = cfg["grid"]
@@ -90,7 +106,7 @@ def run_tables(desc):
         col = sf[c:, c]
         require(np.all(np.diff(col, axis=0) <= eps), "survival-increases-with-age", f"cohort {c}")
         cum = np.cumsum(pdf[c:, c], axis=0)
-        require(np.max(np.abs(col + cum - 1.0)) <= 1e-11, "survival-plus-outflow-not-one", f"cohort {c}: {np.max(np.abs(col + cum - 1.0)):.3g}")
+        require(np.max(np.abs(col + cum - 1.0)) <= 1e-11, f"{pre}survival-plus-outflow-not-one", f"cohort {c}: {np.max(np.abs(col + cum - 1.0)):.3g}")
     # ---- differential against closed forms -------------------------------------------
     bounds = sg.documented_bounds(grid)
     etas, ws = eta_weights(lt)
@@ -126,7 +142,7 @@ def run_tables(desc):
                     hi += w * v
                 if not (lo - 1e-9 <= got <= hi + 1e-9):
                     raise Violation(
-                        f"survival-differs-from-{cls}",
+                        f"{pre}survival-differs-from-{cls}",
                         f"sf[t={t},c={c},{idx}] = {got!r}, closed form in [{lo!r},{hi!r}]; prms {th}; n_pts {lt['n_pts']} inflow_at {lt['inflow_at']}; grid {grid}",
                     )
                 worst = max(worst, abs(got - lo))
@@ -145,7 +161,17 @@ def table_cases(draw, max_n=8):
     grid = draw(sg.grids(max_n=max_n))
     cfg = {"grid": grid, "extra": draw(sg.extras(max_extra=2))}
     cfg["lt"] = draw(sg.lifetime_descs(sg.universe_of(cfg)))
-    return {"cfg": cfg}
+    d = {"cfg": cfg}
+    if draw(st.integers(0, 2)) == 0:
+        new = draw(sg.lifetime_descs(sg.universe_of(cfg), classes=(cfg["lt"]["cls"],)))["prms"]
+        names = list(new)
+        keep = draw(st.sampled_from(["all", "first", "last"]))
+        if keep == "first":
+            new = {names[0]: new[names[0]]}
+        elif keep == "last":
+            new = {names[-1]: new[names[-1]]}
+        d["reprm"] = new
+    return d
 
 
 class Tables(Facet):
